@@ -110,12 +110,57 @@ def run_impl(lines, profile="debug", errno=None, shards=NPROC, timeout=1800):
     out = run_sharded(cmd, lines, timeout=timeout, shards=shards)
     res = []
     for o in out:
-        if "\t" in o:
-            a, b = o.rsplit("\t", 1)
-            res.append((a, int(b) if b.isdigit() else 0))
+        f = o.split("\t")
+        if len(f) >= 3:
+            res.append((f[0], int(f[1]) if f[1].isdigit() else 0, None if f[2] == "-" else f[2]))
+        elif len(f) == 2:
+            res.append((f[0], int(f[1]) if f[1].isdigit() else 0, None))
         else:
-            res.append((o, 0))
+            res.append((o, 0, None))
     return res
+
+
+def rechunk_line(line, delivered):
+    """Rewrite the data events of a CLI/SRV case line so that they are the chunks the transport actually
+    delivered (a scripted chunk larger than the capacity offered by tokio-util is delivered in pieces)."""
+    act = [bytes.fromhex(x) for x in delivered.split(",") if x and x != "-"]
+    toks = line.split(" ")
+    ai = 0
+
+    def rewrite(script):
+        nonlocal ai
+        if script == "-":
+            return script
+        out = []
+        for ev in script.split(","):
+            if ev.startswith("d") and ev != "d" and all(ch in "0123456789abcdef" for ch in ev[1:]):
+                want = bytes.fromhex(ev[1:])
+                got = b""
+                pieces = []
+                while ai < len(act) and len(got) < len(want) and want.startswith(got + act[ai]):
+                    got += act[ai]
+                    pieces.append("d" + act[ai].hex())
+                    ai += 1
+                if got == want:
+                    out += pieces
+                else:
+                    rest = want[len(got):]
+                    out += pieces + (["d" + rest.hex()] if rest else [])
+            else:
+                out.append(ev)
+        return ",".join(out)
+
+    if toks[0] == "SRV":
+        toks[2] = rewrite(toks[2])
+    elif toks[0] == "CLI":
+        i = 3
+        while i < len(toks):
+            if toks[i] in ("call", "typed") and i + 5 < len(toks) + 0:
+                toks[i + 4] = rewrite(toks[i + 4])
+                i += 6
+            else:
+                i += 1
+    return " ".join(toks)
 
 
 def run_model(lines, profile="debug", timeout=1800):
@@ -249,7 +294,7 @@ def proof_step(prop):
 # cases, comparison, verdict
 # ------------------------------------------------------------------------------------------
 class Case:
-    __slots__ = ("line", "meta", "profile", "impl", "model", "peak", "errno")
+    __slots__ = ("line", "meta", "profile", "impl", "model", "peak", "errno", "model_line")
 
     def __init__(self, line, meta=None, profile="debug", errno=None):
         self.line = line
@@ -259,9 +304,10 @@ class Case:
         self.impl = None
         self.model = None
         self.peak = 0
+        self.model_line = None
 
     def to_json(self):
-        return dict(line=self.line, profile=self.profile, errno=self.errno, impl=self.impl, model=self.model, meta={k: v for k, v in self.meta.items() if isinstance(v, (str, int, bool, list, type(None)))})
+        return dict(line=self.line, model_line=self.model_line, profile=self.profile, errno=self.errno, impl=self.impl, model=self.model, meta={k: v for k, v in self.meta.items() if isinstance(v, (str, int, bool, list, type(None)))})
 
 
 def execute(cases):
@@ -272,9 +318,14 @@ def execute(cases):
     for (profile, errno), cs in groups.items():
         lines = [c.line for c in cs]
         ri = run_impl(lines, profile, errno)
-        rm = run_model(lines, profile)
-        for c, (a, pk), b in zip(cs, ri, rm):
-            c.impl, c.peak, c.model = a, pk, b
+        mlines = []
+        for c, (a, pk, clip) in zip(cs, ri):
+            c.impl, c.peak = a, pk
+            c.model_line = rechunk_line(c.line, clip) if clip else None
+            mlines.append(c.model_line or c.line)
+        rm = run_model(mlines, profile)
+        for c, b in zip(cs, rm):
+            c.model = b
 
 
 def load_known():
